@@ -22,7 +22,6 @@ import shutil
 import subprocess
 import sys
 import tempfile
-from concurrent.futures import ThreadPoolExecutor
 
 from ..driver import model
 from ..runner import Stream
@@ -50,28 +49,43 @@ PAR = int(os.environ.get("VP_C15_PAR", "6"))
 
 
 # ------------------------------------------------------------------ running children
-def run_child(scen, k, keep=None):
-    """Returns dict(ops, actions, finished, survivors{name: text}, rc)."""
+def run_children(scen, ks, keep_dir=None):
+    """One interpreter patches and imports deephyper once, then forks one process per crash point (PAR at a time).
+    Returns {k: dict(ops, actions, finished, survivors{name: text}, rc, err, keep)}."""
     base = tempfile.mkdtemp(prefix="vp_c15_")
     try:
-        log_dir, side = os.path.join(base, "log"), os.path.join(base, "side")
-        os.makedirs(log_dir)
-        os.makedirs(side)
-        p = subprocess.run([sys.executable, CHILD, log_dir, side, str(k), json.dumps(scen)], env=dict(os.environ),
-                           stdout=subprocess.PIPE, stderr=subprocess.PIPE, text=True, timeout=300)
-        res = dict(rc=p.returncode, err=p.stderr[-1500:] if p.returncode not in (0, 77) else "")
-        rd = lambda name: [json.loads(ln) for ln in open(os.path.join(side, name))] if os.path.exists(os.path.join(side, name)) else []
-        res["ops"], res["actions"] = rd("ops.jsonl"), rd("actions.jsonl")
-        fin = os.path.join(side, "finished.txt")
-        res["finished"] = [tuple(int(x) for x in ln.split()) for ln in open(fin)] if os.path.exists(fin) else []
-        res["survivors"] = {}
-        for fn in sorted(os.listdir(log_dir)):
-            if fn.startswith("results"):
-                with open(os.path.join(log_dir, fn), newline="") as f:
-                    res["survivors"][fn] = f.read()
-        if keep is not None and "results.csv" in res["survivors"]:
-            shutil.copy(os.path.join(log_dir, "results.csv"), keep)
-        return res
+        jobs = []
+        for k in ks:
+            log_dir, side = os.path.join(base, "log%d" % k), os.path.join(base, "side%d" % k)
+            os.makedirs(log_dir)
+            os.makedirs(side)
+            jobs.append([k, log_dir, side])
+        p = subprocess.run([sys.executable, CHILD, json.dumps(scen), str(PAR)], input=json.dumps(jobs), env=dict(os.environ),
+                           stdout=subprocess.PIPE, stderr=subprocess.PIPE, text=True, timeout=800)
+        if p.returncode != 0:
+            raise RuntimeError("fork server failed: " + p.stderr[-1500:])
+        codes = json.loads(p.stdout)
+        out = {}
+        for (k, log_dir, side), rc in zip(jobs, codes):
+            res = dict(rc=rc, err="")
+            ef = os.path.join(side, "err.txt")
+            if os.path.exists(ef):
+                res["err"] = open(ef).read()[-1500:]
+            rd = lambda name: [json.loads(ln) for ln in open(os.path.join(side, name))] if os.path.exists(os.path.join(side, name)) else []
+            res["ops"], res["actions"] = rd("ops.jsonl"), rd("actions.jsonl")
+            fin = os.path.join(side, "finished.txt")
+            res["finished"] = [tuple(int(x) for x in ln.split()) for ln in open(fin)] if os.path.exists(fin) else []
+            res["survivors"] = {}
+            for fn in sorted(os.listdir(log_dir)):
+                if fn.startswith("results"):
+                    with open(os.path.join(log_dir, fn), newline="") as f:
+                        res["survivors"][fn] = f.read()
+            res["keep"] = None
+            if keep_dir is not None and "results.csv" in res["survivors"]:
+                res["keep"] = os.path.join(keep_dir, "surv_%d.csv" % k)
+                shutil.copy(os.path.join(log_dir, "results.csv"), res["keep"])
+            out[k] = res
+        return out
     finally:
         shutil.rmtree(base, ignore_errors=True)
 
@@ -157,6 +171,11 @@ def abstract_files(surv, names):
     return sorted(out)
 
 
+def shape(ops):
+    """Operations without the identity of the rows (the order of the jobs of one gather is a set iteration order)."""
+    return [[o[0], o[1]] + ([[(ln[0], ln[-1]) for ln in o[2]]] if o[0] == 2 else list(o[2:])) for o in ops]
+
+
 def merge_writes(ops):
     """Canonical form for comparing traces: consecutive writes to one file are one write (pandas chunks its output)."""
     out = []
@@ -228,7 +247,7 @@ def check(case):
                desc=["searches=%d" % nsearch, "multi=%s" % any(s.get("multi") for s in scen["searches"]),
                      "calls=%d" % max(len(s["calls"]) for s in scen["searches"]), "workers=%d" % max(s.get("workers", 1) for s in scen["searches"]),
                      "failures=%s" % any(any(s.get("fails", [])) for s in scen["searches"])])
-    full = run_child(scen, 0)
+    full = run_children(scen, [0])[0]
     if full["rc"] != 0:
         return dict(res, ok=False, clause="child_failed", detail=full["err"])
     raised = [a for a in full["actions"] if a["act"] == "raised"]
@@ -273,33 +292,28 @@ def check(case):
     jobs = list(range(1, N + 1)) if focus == "files" else []
     tmpd = tempfile.mkdtemp(prefix="vp_c15s_")
     try:
-        def one(k):
-            keep = os.path.join(tmpd, "surv_%d.csv" % k)
-            r = run_child(scen, k, keep=keep)
-            return k, r, keep
-
-        with ThreadPoolExecutor(PAR) as ex:
-            runs = list(ex.map(one, jobs))
+        runs = run_children(scen, jobs, keep_dir=tmpd) if jobs else {}
+        runs = [(k, runs[k], runs[k]["keep"]) for k in jobs]
         for k, r, keep in runs:
             if r["rc"] != 77:
                 return dict(res, ok=False, kind="corr", clause="crash_not_reached", detail=dict(k=k, rc=r["rc"], err=r["err"], ops=len(r["ops"])))
-            nm = Names()
-            nm.t = dict(names.t)
+            nm = Names()                 # tokens by order of appearance: the real-clock names differ between processes
             try:
                 Tk = abstract_ops(r["ops"], nm)
             except ValueError as e:
                 return dict(res, ok=False, kind="corr", clause="partial_line", detail=str(e))
-            if merge_writes(Tk) != merge_writes(T[:k]):
+            if shape(Tk) != shape(T[:k]):
                 return dict(res, ok=False, kind="corr", clause="not_deterministic", detail=dict(k=k, crashed=Tk[-3:], full=T[max(0, k - 3):k]))
             surv = abstract_files(r["survivors"], nm)
-            pred = sorted([f, c] for f, c in m.call(F_CRASH, [T, k]))
+            # the file-system model against the OS, on the operations THIS process completed
+            pred = sorted([f, c] for f, c in m.call(F_CRASH, [Tk, k]))
             fin_k = [u for u, _ in r["finished"]]
             okk = m.call(F_OKSURV, [fin_k, surv])
             if not okk and viol is None:
                 return dict(res, ok=False, clause="survivor_not_wellformed", detail=dict(k=k, survivors=r["survivors"], finished=fin_k))
             if surv != pred:
                 return dict(res, ok=False, kind="corr", clause="fs_model", detail=dict(k=k, survivors=surv, predicted=pred, text=r["survivors"]))
-            if os.path.exists(keep) and okk:
+            if keep and os.path.exists(keep) and okk:
                 err = fit_surrogate(keep)
                 if err and viol is None:
                     return dict(res, ok=False, clause="fit_surrogate:" + err[0], detail=dict(k=k, error=err[1], survivor=r["survivors"].get("results.csv")))
@@ -362,6 +376,19 @@ def gen(rng, tier):
         more.append(S(searches=[dict(workers=1, calls=[2]) for _ in range(5)], same_second=True))
         more.append(S(searches=[dict(workers=2, calls=[2], multi=True), dict(workers=1, calls=[1, 1])], same_second=True))
         more.append(S(searches=[dict(workers=1, calls=[2]), dict(workers=1, calls=[2])]))   # two searches, real clock
+        for i in range(16):
+            ns = rng.choice([1, 1, 1, 2, 3])
+            searches = []
+            for _ in range(ns):
+                multi = rng.random() < 0.4
+                sc = dict(workers=rng.randint(1, 8), calls=[rng.randint(1, 5) for _ in range(rng.randint(1, 3))], multi=multi)
+                if rng.random() < 0.4:
+                    # failures; a multi-objective search starts with a success (a failure first is C04 / F06)
+                    sc["fails"] = ([False] if multi else []) + [rng.random() < 0.6 for _ in range(rng.randint(2, 6))]
+                    if multi:
+                        sc["workers"] = 1
+                searches.append(sc)
+            more.append(S(searches=searches, same_second=(ns > 1 and rng.random() < 0.7)))
         for c in more:
             yield dict(c, focus="files")
             yield dict(c, focus="loss")
